@@ -339,16 +339,20 @@ class C08Profile(Profile):
             t.join()
         # R3: drain the iterator: every operation is offered exactly once or reported
         st["iter_was_suspended"] = it_state["advanced"] > 0
-        for item in iterator:
-            if isinstance(item, Ok):
-                op = item.ok()
-                seen_iter.append(("ok", f"{op.method.upper()} {op.path}"))
-                ref = u.ops.get(f"{op.method.upper()} {op.path}")
-                if ref is not None:
-                    check(op, ref, "iteration")
-            else:
-                err = item.err()
-                seen_iter.append(("err", f"{(err.method or '?').upper()} {err.path}"))
+        try:
+            for item in iterator:
+                if isinstance(item, Ok):
+                    op = item.ok()
+                    seen_iter.append(("ok", f"{op.method.upper()} {op.path}"))
+                    ref = u.ops.get(f"{op.method.upper()} {op.path}")
+                    if ref is not None:
+                        check(op, ref, "iteration")
+                else:
+                    err = item.err()
+                    seen_iter.append(("err", f"{(err.method or '?').upper()} {err.path}"))
+        except Exception as exc:  # noqa: BLE001 - e.g. the resolver's scope stack was left corrupted by the callers
+            st["log"].append(traceback.format_exc()[-1500:])
+            bad("lookup_raised", f"draining get_all_operations() raised {type(exc).__name__}: {str(exc)[:200]}", "iter")
         st["seen_iter"] = seen_iter
         ctx.exit_code = 0
 
